@@ -362,7 +362,9 @@ func TestC06(t *testing.T) {
 		// streamwriter
 		{
 			rw := &recWriter{}
-			fw := &frame.Writer{ByteWriter: rw, DialectRW: genv.drw}
+			// the frame writer underneath carries deprecated signing options of its own (another key, another link id): they are
+			// nothing to the stream writer on top, whose link id may be 0
+			fw := &frame.Writer{ByteWriter: rw, DialectRW: genv.drw, OutVersion: frame.V2, OutSystemID: 77, OutSignatureLinkID: 77, OutKey: mkKey(keys[(ki+1)%3])}
 			_ = fw.Initialize()
 			sw := &streamwriter.Writer{FrameWriter: fw, Version: streamwriter.V2, SystemID: 9, ComponentID: 3, SignatureLinkID: byte(link), Key: key}
 			if err := sw.Initialize(); err != nil {
@@ -388,7 +390,13 @@ func TestC06(t *testing.T) {
 		{
 			rw := &recWriter{}
 			fw := &frame.Writer{ByteWriter: rw, DialectRW: genv.drw, OutVersion: frame.V2, OutSystemID: 4, OutSignatureLinkID: byte(link), OutKey: key}
+			if ki == 1 {
+				// a link that speaks v1 until its peer shows v2: the writer is initialised for v1 (key already in place) and its
+				// version field is switched afterwards; from then on it writes v2 frames - signed
+				fw.OutVersion = frame.V1
+			}
 			_ = fw.Initialize()
+			fw.OutVersion = frame.V2
 			t0 := ticksNow()
 			for i := 0; i < nW; i++ {
 				mi := glist[r.Intn(len(glist))]
